@@ -84,7 +84,8 @@ def _gen_one(w, s, tier):
     small = pno <= 6
     return dict(engine="batchsim", prop="C16", screen=dict(control="", arity=2, rows=rows), k=k, max_len=3 * k,
                 path=s.choice(["func", "func", "func-reveal", "cli", "cli-reveal"]), multi=multi, seed=s.randrange(2**31),
-                enumerate=(tier == "thorough" and pno <= 5 and s.random() < 0.3), ties=s.random() < 0.3)
+                enumerate=(tier == "thorough" and pno <= 5 and s.random() < 0.3), ties=s.random() < 0.3,
+                score_regime=s.choice(["finite"] * 5 + ["neg-inf-winner", "inf-others", "huge", "all-inf-allowed", "all-inf-allowed"]))
 
 
 def execute(prop, plan):
@@ -204,7 +205,20 @@ def _run_screen(plan, spec, scratch, log, stats, violation):
             return got, allowed
         w = winner_pref(allowed)
         tie = plan["ties"]
-        got2, allowed2 = ask(lambda p: (0.0 if p == w else (0.0 if tie and p not in allowed else 1.0 + (p % 3))))
+        regime = plan.get("score_regime", "finite")
+        inf = float("inf")
+        if regime == "all-inf-allowed":
+            # every allowed plate scores +inf (an overflowing scorer) while refused plates score lower: any allowed
+            # plate may come back, a refused one may not
+            got2, allowed2 = ask(lambda p: (inf if p in allowed else float(p % 3)))
+            if allowed2 != allowed:
+                violation("C16.policy-not-a-function-of-state", "filter_eligible_plates", f"same state, different allowed lists {allowed} / {allowed2}")
+            if got2 not in allowed:
+                violation("C16.refused-plate-selected", path, f"plate {got2} was returned although the policy allows only {allowed} (all of them score +inf)")
+                return w, allowed
+            return got2, allowed
+        lo, hi = {"finite": (0.0, 1.0), "neg-inf-winner": (-inf, 1.0), "inf-others": (0.0, inf), "huge": (-1e308, 1e308)}[regime]
+        got2, allowed2 = ask(lambda p: (lo if p == w else (lo if tie and p not in allowed else (hi + (p % 3) if hi not in (inf, 1e308) else hi))))
         if allowed2 != allowed:
             violation("C16.policy-not-a-function-of-state", "filter_eligible_plates", f"same state, different allowed lists {allowed} / {allowed2}")
         if got2 != w:
